@@ -40,6 +40,8 @@ var (
 )
 
 func init() {
+	// every SQL statement of the CLI's ref store passes the simsql wrapper (statement faults)
+	local.VerifSQLDriver = "sqlite3_sim"
 	local.VerifOpenObjectsStore = func(dir string) (objects.Store, bool) {
 		nodesMu.Lock()
 		defer nodesMu.Unlock()
